@@ -17,6 +17,13 @@
 //!     SV:r:value set_node_value   SD:r:data set_data   AD:r:data append_data   ID:r:off:data insert_data
 //!     DD:r:off:cnt delete_data    RD:r:off:cnt:data replace_data   ST:r:off split_text   PD:r:data PI set_data
 //!     NZ:r  Element::normalize (in the view of the case: adjacent Text children are merged in the raw view only)
+//!     a merged text node of the text-expanded view as the ARGUMENT of an insertion (the node `child_nodes()` hands out for a run
+//!     of Text / CDATA / reference items; it stands for several items and is refused with NOT_SUPPORTED_ERR, /repo aa36908):
+//!     ACX:r:c:k        it = entry k of c.child_nodes() taken in the merged view; r.append_child(it)
+//!     IBX:r:c:k:f      r.insert_before(it, f)          IBXX:r:c:k:c2:k2   the reference child is a merged text node too
+//!     RCX:r:c:k:o      r.replace_child(it, o)          RCXX:r:c:k:c2:k2   the old child is a merged text node too
+//!                    (`na`: r is no NodeMut, a handle does not exist, or the entry is no merged text node -- the call cannot
+//!                    be written; the node is fetched in the merged view, the call runs in the view of the case)
 //!     Q:d:expr   XPath node-set query on document d, edited tree vs re-parse of its serialisation
 //!     read-only maps of a DocumentType (r, src = handle of a Document -- its `doc_type()` is taken -- or of a DocumentType node):
 //!     ES:r:src:name  r.entities().set_named_item(src.entities().get_named_item(name))    ESI:r:src:i  ... (src.entities().item(i))
@@ -78,6 +85,8 @@ struct St {
     /// one XPath evaluation context per case, re-used by every `Q` op across the edits (a caller
     /// may keep its Context): its answers must be those of a fresh context
     xctx: xml_xpath::eval::model::Context,
+    /// view of the case (`m`): value of text_expanded while the operations run
+    case_merged: bool,
 }
 
 fn item_of(n: &XmlNode) -> Option<Rc<info::XmlItem>> {
@@ -896,6 +905,58 @@ fn run_ro_op(f: &[&str], r: &XmlNode, src: Option<XmlNode>) -> Res {
     }
 }
 
+/// ACX / IBX / IBXX / RCX / RCXX: a merged text node of the text-expanded view as new_child (see the module comment)
+fn run_mx_op(st: &St, f: &[&str], r: &XmlNode) -> Res {
+    let h = |i: usize| -> Option<XmlNode> {
+        f.get(i).and_then(|s| s.parse::<usize>().ok()).and_then(|k| st.hs.get(k).map(|x| x.1.clone()))
+    };
+    // entry k of the child list of handle c as the merged view shows it, if it is a merged text node
+    let merged_entry = |ci: usize, ki: usize| -> Option<XmlNode> {
+        let c = h(ci)?;
+        let k = f.get(ki).and_then(|s| s.parse::<usize>().ok())?;
+        st.set_view(true);
+        let it = c.child_nodes().item(k);
+        st.set_view(st.case_merged);
+        match it {
+            Some(XmlNode::ExpandedText(t)) => Some(XmlNode::ExpandedText(t)),
+            _ => None,
+        }
+    };
+    let m = match as_nodemut(r) {
+        Some(m) => m,
+        None => return Res::Na,
+    };
+    let it = match merged_entry(2, 3) {
+        Some(x) => x,
+        None => return Res::Na,
+    };
+    match f[0] {
+        "ACX" => Res::Node(m.append_child(it)),
+        "IBX" | "RCX" => {
+            let b = match h(4) {
+                Some(x) => x,
+                None => return Res::Na,
+            };
+            if f[0] == "IBX" {
+                Res::Node(m.insert_before(it, Some(&b)))
+            } else {
+                Res::Node(m.replace_child(it, &b))
+            }
+        }
+        _ => {
+            let b = match merged_entry(4, 5) {
+                Some(x) => x,
+                None => return Res::Na,
+            };
+            if f[0] == "IBXX" {
+                Res::Node(m.insert_before(it, Some(&b)))
+            } else {
+                Res::Node(m.replace_child(it, &b))
+            }
+        }
+    }
+}
+
 fn run_op(st: &mut St, op: &str) -> Res {
     let f: Vec<&str> = op.split(':').collect();
     let h = |i: usize| -> Option<(usize, XmlNode)> {
@@ -1080,6 +1141,7 @@ fn run_op(st: &mut St, op: &str) -> Res {
             _ => Res::Na,
         },
         "ES" | "ESI" | "ER" | "TS" | "TSI" | "TR" => run_ro_op(&f, &r, h(2).map(|x| x.1)),
+        "ACX" | "IBX" | "IBXX" | "RCX" | "RCXX" => run_mx_op(st, &f, &r),
         "Q" => {
             let d = match &r {
                 XmlNode::Document(d) => d.clone(),
@@ -1136,7 +1198,7 @@ pub fn case(line: &str) -> String {
     if w.len() < 2 + nd {
         return "badinput".to_string();
     }
-    let mut st = St { docs: vec![], hs: vec![], index: HashMap::new(), ext, frag_owner: HashMap::new(), xctx: bound_context() };
+    let mut st = St { docs: vec![], hs: vec![], index: HashMap::new(), ext, frag_owner: HashMap::new(), xctx: bound_context(), case_merged: merged };
     for k in 0..nd {
         let text = match dec(w[2 + k]) {
             Some(t) => t,
